@@ -139,9 +139,13 @@ CASES = [
     "np.asarray([1, 2, 3]).astype(float).mean(), np.asarray([1.0, 2.0, 3.0]).std()",
     "np.argmin(np.asarray([3.0, 1.0, 2.0])), np.argmin(np.abs(np.log(np.asarray([0.5, 1, 2, 2.5, 5, 10]) * 100.0 / 445.0)))",
     "np.log2(8.0), np.log10(1000.0), np.power(8, 1 / 3)",
+    "np.zeros((2, 2))[np.ix_([], [])].shape, np.zeros((2, 2))[np.ix_(np.asarray([], dtype=int), np.asarray([1]))].shape",
 ]
 
 ERROR_CASES = [
+    "np.zeros((2, 2))[np.ix_(np.asarray([]), np.asarray([]))]",
+    "np.empty((2.0, 2))",
+    "np.zeros(3.0)",
     "np.asarray([[1, 2], [3, 4]]).cumsum(axis='x')",
     "np.asarray([[1, 2], [3, 4]]).sum(axis='x')",
     "np.asarray([[1, 2], [3]])",
